@@ -19,7 +19,7 @@ import (
 const (
 	baseCertID = 100
 	baseCAID   = 200
-	nCerts     = 4
+	nCerts     = 8 // 1..4: four key pairs; 5..8: the certificate of pair (id-4) RENEWED for the same key (new serial)
 	nCAs       = 3
 )
 
@@ -67,10 +67,15 @@ func issueClient(caID int) tls.Certificate {
 	return tls.Certificate{Certificate: [][]byte{der}, PrivateKey: key}
 }
 
-func mkCert(id int, cn string, isCA bool) material {
-	key, err := ecdsa.GenerateKey(elliptic.P256(), rand.Reader)
-	if err != nil {
-		panic(err)
+func mkCert(id int, cn string, isCA bool) material { return mkCertWithKey(id, cn, isCA, nil) }
+
+func mkCertWithKey(id int, cn string, isCA bool, key *ecdsa.PrivateKey) material {
+	if key == nil {
+		var err error
+		key, err = ecdsa.GenerateKey(elliptic.P256(), rand.Reader)
+		if err != nil {
+			panic(err)
+		}
 	}
 	tpl := &x509.Certificate{
 		SerialNumber:          big.NewInt(int64(id)),
@@ -106,7 +111,11 @@ func mkCert(id int, cn string, isCA bool) material {
 
 func initMaterial() {
 	for i := 1; i <= nCerts; i++ {
-		m := mkCert(i, fmt.Sprintf("serving-%d", i), false)
+		var key *ecdsa.PrivateKey
+		if i > 4 {
+			key = servingCerts[i-4].key // a renewal: same key, same subject, new serial / validity
+		}
+		m := mkCertWithKey(i, fmt.Sprintf("serving-%d", (i-1)%4+1), false, key)
 		servingCerts[i] = m
 		certByDER[string(m.der)] = i
 	}
